@@ -430,15 +430,25 @@ class C20(Property):
                     if need and not all(self._on(x) for x in need):
                         continue
                     res.append({"src": c["src"], "muts": c.get("muts", [])})
+        # fixed classes, the same programs in every run and before anything random (a seeded change
+        # must be caught by construction, not by the luck of VERIF_SEED): EMPTY forms of every
+        # grouping construct in every position; white space as / inside every string literal
+        seen = {c["src"] for c in res}
+        fixed = c20gen.empty_matrix() + c20gen.lexeme_core()
+        # every statement kind the formatter deletes x what stands before it x what stands behind it
+        # (240 small programs; seed C20-6)
+        if all(self._on(f) for f in (F15, F21)):
+            fixed += c20gen.deletion_matrix()
+        for src in fixed:
+            if src not in seen:
+                seen.add(src)
+                res.append({"src": src, "muts": []})
         return res
 
     def gen(self, rng, n, tier):
         cases = []
-        # statements the formatter deletes, in every position (systematic: all 240 small programs in
-        # every run, besides the random placements of the generator)
-        if all(self._on(f) for f in (F15, F21)) and tier != "search":
-            for src in c20gen.deletion_matrix():
-                cases.append({"src": src, "muts": []})
+        # (the fixed classes -- corpus files, EMPTY forms, white space in literals, deleted statements
+        # in every neighbourhood -- are in corpus(); what follows is drawn from VERIF_SEED)
         # sets of files importing one another (analyzer-level description before/after format.File)
         if tier != "search":
             for _ in range(25 if tier == "quick" else 400):
@@ -448,7 +458,8 @@ class C20(Property):
         # values, white-space and encoding variants of one program): all ~1150 tiny programs in the
         # thorough tier, a random half of them per quick run
         if tier != "search":
-            lm = c20gen.lexeme_matrix()
+            core = set(c20gen.lexeme_core())
+            lm = [x for x in c20gen.lexeme_matrix() if x not in core]
             for src in (lm if tier == "thorough" else rng.sample(lm, len(lm) // 2)):
                 cases.append({"src": src, "muts": []})
         on = {f: self._on(f) for f in (F10, F15, F16, F17, F18, F19, F20, F21, F24, F25)}
